@@ -35,8 +35,8 @@ CASE_TIMEOUT = {'quick': 300, 'thorough': 600}
 
 
 def plan(tier, seed):
-    n = 168 if tier == 'quick' else 1500
-    kinds = ['mesh', 'mesh', 'eol', 'long', 'raman', 'mesh', 'eol', 'gain', 'p2p', 'mesh', 'raman', 'long']
+    n = 182 if tier == 'quick' else 1625
+    kinds = ['mesh', 'mesh', 'eol', 'long', 'raman', 'mesh', 'eol', 'gain', 'p2p', 'mesh', 'raman', 'long', 'multiband']
     cases = [{'idx': i, 'kind': kinds[i % len(kinds)]} for i in range(n)]
     # dedicated cases that reproduce a listed finding (gain mode, automatic type, saturating operator gain, input VOA)
     return cases + [{'idx': n, 'kind': 'kf-invoa-gain'}, {'idx': n + 1, 'kind': 'kf-invoa-gain'},
@@ -146,6 +146,23 @@ def build_inputs(rng, kind):
         sim = {'raman_params': {'flag': True, 'result_spatial_resolution': 10e3, 'solver_spatial_resolution': 10e3},
                'nli_params': {'method': 'gn_model_analytic', 'computed_number_of_channels': 3}}
         return ej, tj, sim, False
+    if kind == 'multiband':
+        # generated C+L network: multiband amplifiers with a stated type whose per-band amplifiers carry operator
+        # settings of their own (offset, output and input VOA): the saved design has to carry all of them
+        ej = G.eqpt_json('eqpt_config_multiband.json')
+        ej['Span'][0]['EOL'] = 0
+
+        def rp(r, s):
+            return {'design_bands': deepcopy(P.MB_BANDS)}
+        tj, _ = G.gen_topology(rng, max_sites=3, max_spans=2, user_amps=False, fused=False, roadm_params=rp, max_km=110)
+        members = {e['type_variety']: e['amplifiers'] for e in ej['Edfa'] if e.get('type_def') == 'multi_band'}
+        P.multibandify(tj, rng, members=members)
+        for e in tj['elements']:
+            if e['type'] == 'Multiband_amplifier' and e['amplifiers'] and rng.random() < 0.7:
+                for a in e['amplifiers']:
+                    a['operational'].update(delta_p=G.pick(rng, [None, 0, 1.0, -1.0]), out_voa=G.pick(rng, [None, 0, 1.0]),
+                                            in_voa=G.pick(rng, [None, 0, 1.0, 2.5]))
+        return ej, tj, rand_sim(rng, False), False
     if kind == 'kf-invoa-gain':
         ej = G.eqpt_json()
         ej['Span'][0]['power_mode'] = False
